@@ -3,6 +3,7 @@ import Driver.AdderAcc
 import Driver.BreakerAcc
 import Driver.PoolAcc
 import Driver.LockedAcc
+import Driver.SimpleAdderAcc
 /-!
 Generic run loop for trace acceptors.  Input: runs separated by `reset …` lines and closed by `end`.
 Output per run: `ACCEPT <run> steps=<n> <summary>` or `REJECT <run> line=<n> :: <line> :: <reason>`;
@@ -89,6 +90,13 @@ def madderAcceptor : Acceptor (LockedAcc.AccSt Int Garr.Locked.AOp (Option Int))
   line := LockedAcc.processLine Garr.Locked.adderProg LockedAcc.parseAOp LockedAcc.showARet
   pc := fun st t => LockedAcc.pcName (LockedAcc.getL st t)
   summary := fun st => s!"steps={st.steps} state={st.g.st}"
+  stuck := fun _ => []
+
+def sadderAcceptor : Acceptor SimpleAdderAcc.AccSt where
+  init := SimpleAdderAcc.initSt
+  line := SimpleAdderAcc.processLine
+  pc := fun st t => SimpleAdderAcc.pcName (SimpleAdderAcc.getL st t)
+  summary := fun st => s!"steps={st.steps} applied={st.g.applied}"
   stuck := fun _ => []
 
 def poolAcceptor : Acceptor PoolAcc.AccSt where
